@@ -1,3 +1,177 @@
 package main
 
-func runStress(in []string) []string { return []string{"UNIMPLEMENTED"} }
+import (
+	"fmt"
+	"math/rand"
+	"sort"
+	"strings"
+	"sync"
+
+	"github.com/inbucket/inbucket/v3/pkg/storage"
+)
+
+// runStress: free-running goroutines on one real store (meant for the -race build; the worker runs with
+// GORACE=halt_on_error=1 so a data race kills it = observation "crash"). Checks made on the history:
+// no operation fails, no id is issued twice in a mailbox, every listing is in per-worker delivery order
+// without duplicates, and (no cap, no size limit) the final content of the mailboxes that are never purged
+// is exactly delivered minus removed, each worker's deliveries in order.
+//
+//	stress <store> <cap> <maxkb> <seed> <workers> <ops>
+func runStress(in []string) []string {
+	kind, capv, maxkb, seed, workers, nops := in[0], atoi(in[1]), atoi(in[2]), atoi(in[3]), atoi(in[4]), atoi(in[5])
+	e, err := newEnv(kind, capv, maxkb)
+	if err != nil {
+		return []string{"harness-error"}
+	}
+	defer e.close()
+	var mu sync.Mutex
+	var bad []string
+	fail := func(f string, a ...interface{}) {
+		mu.Lock()
+		if len(bad) < 3 {
+			bad = append(bad, strings.ReplaceAll(fmt.Sprintf(f, a...), " ", "_"))
+		}
+		mu.Unlock()
+	}
+	type rec struct{ mb, tag int }
+	added := make([][]rec, workers)   // deliveries that returned an id, per worker, in order
+	removed := make([]map[int]bool, workers)
+	checkView := func(ms []storage.Message) {
+		last := map[int]int{}
+		for _, m := range ms {
+			t := atoi(tagOf(m))
+			w := t / 100000
+			if prev, ok := last[w]; ok && prev >= t {
+				fail("listing out of delivery order or duplicated: %d after %d", t, prev)
+			}
+			last[w] = t
+		}
+	}
+	var wg sync.WaitGroup
+	for w := 0; w < workers; w++ {
+		removed[w] = map[int]bool{}
+		wg.Add(1)
+		go func(w int) {
+			defer wg.Done()
+			r := rand.New(rand.NewSource(int64(seed*1000 + w)))
+			mine := map[int]string{} // tag -> id of own live messages
+			var order []int
+			for i := 0; i < nops; i++ {
+				mb := 1 + r.Intn(3) // mailboxes 1..3 are never purged; 4 is the purge playground
+				switch k := r.Intn(20); {
+				case k < 8:
+					tag := w*100000 + i
+					if r.Intn(6) == 0 {
+						mb = 4
+					}
+					id, err := e.store.AddMessage(delivery(mbNames[mb], tag, 20+r.Intn(200)))
+					if err != nil {
+						fail("add failed: %v", err)
+						continue
+					}
+					e.tagMu.Lock()
+					e.issued[mb] = append(e.issued[mb], id)
+					e.tagMu.Unlock()
+					if mb != 4 {
+						mine[tag] = id
+						order = append(order, tag)
+						added[w] = append(added[w], rec{mb, tag})
+					}
+				case k < 11:
+					ms, err := e.store.GetMessages(mbNames[mb])
+					if err != nil {
+						fail("list failed: %v", err)
+						continue
+					}
+					checkView(ms)
+				case k < 13 && len(order) > 0:
+					tag := order[r.Intn(len(order))]
+					if removed[w][tag] {
+						continue
+					}
+					var box int
+					for _, a := range added[w] {
+						if a.tag == tag {
+							box = a.mb
+						}
+					}
+					m, err := e.store.GetMessage(mbNames[box], mine[tag])
+					if capv == 0 && maxkb == 0 {
+						if err != nil || m == nil {
+							fail("own live message %d not found: %v", tag, err)
+						} else if tagOf(m) != fmt.Sprint(tag) {
+							fail("get returned another message")
+						}
+					}
+					_ = e.store.MarkSeen(mbNames[box], mine[tag])
+				case k < 15 && len(order) > 0:
+					tag := order[r.Intn(len(order))]
+					if removed[w][tag] {
+						continue
+					}
+					var box int
+					for _, a := range added[w] {
+						if a.tag == tag {
+							box = a.mb
+						}
+					}
+					err := e.store.RemoveMessage(mbNames[box], mine[tag])
+					if err == nil {
+						removed[w][tag] = true
+					} else if capv == 0 && maxkb == 0 {
+						fail("remove of own live message failed: %v", err)
+					} else {
+						removed[w][tag] = true
+					}
+				case k < 16:
+					if err := e.store.PurgeMessages(mbNames[4]); err != nil {
+						fail("purge failed: %v", err)
+					}
+				case k < 17:
+					err := e.store.VisitMailboxes(func(ms []storage.Message) bool { checkView(ms); return true })
+					if err != nil {
+						fail("visit failed: %v", err)
+					}
+				default:
+					if _, err := e.store.GetMessage(mbNames[mb], "latest"); err != nil && err != storage.ErrNotExist {
+						fail("latest failed: %v", err)
+					}
+				}
+			}
+		}(w)
+	}
+	wg.Wait()
+	if e.idsDistinct() != "ids=ok" {
+		fail("duplicate id")
+	}
+	if capv == 0 && maxkb == 0 {
+		for mb := 1; mb <= 3; mb++ {
+			ms, err := e.store.GetMessages(mbNames[mb])
+			if err != nil {
+				fail("final list failed")
+				continue
+			}
+			checkView(ms)
+			var got, want []string
+			for _, m := range ms {
+				got = append(got, tagOf(m))
+			}
+			for w := range added {
+				for _, a := range added[w] {
+					if a.mb == mb && !removed[w][a.tag] {
+						want = append(want, fmt.Sprint(a.tag))
+					}
+				}
+			}
+			sort.Strings(got)
+			sort.Strings(want)
+			if strings.Join(got, ",") != strings.Join(want, ",") {
+				fail("mailbox %d: final content differs from delivered minus removed (%d vs %d)", mb, len(got), len(want))
+			}
+		}
+	}
+	if len(bad) > 0 {
+		return []string{"bad:" + strings.Join(bad, "|")}
+	}
+	return []string{"ok"}
+}
